@@ -369,7 +369,26 @@ pub fn run(dir: &str) {
                     match store.create_snapshot().await {
                         Ok((id, mut file)) => {
                             let bytes = std::fs::read(path).unwrap_or_default();
-                            if file.write_all(&bytes).await.is_err() || file.flush().await.is_err() {
+                            // as async-raft's follower does: the snapshot arrives in chunks, each written at its offset
+                            // (`seek(SeekFrom::Start(req.offset))`, then `write_all`); a chunk whose reply was lost is sent
+                            // again and written over its first copy
+                            let wrote = async {
+                                use tokio::io::AsyncSeekExt;
+                                let n = bytes.len();
+                                let cuts = [0, n / 3, 2 * n / 3, n];
+                                for k in 0..3 {
+                                    let (a, b) = (cuts[k], cuts[k + 1]);
+                                    file.seek(std::io::SeekFrom::Start(a as u64)).await?;
+                                    file.write_all(&bytes[a..b]).await?;
+                                    if k == 1 {
+                                        file.seek(std::io::SeekFrom::Start(a as u64)).await?;
+                                        file.write_all(&bytes[a..b]).await?;
+                                    }
+                                }
+                                file.flush().await
+                            }
+                            .await;
+                            if wrote.is_err() {
                                 "err write".to_string()
                             } else {
                                 // async-raft: delete_through = Some(snapshot index) iff the follower's log is longer
